@@ -654,3 +654,145 @@ func builtBy(how string, g *oracle.G) (d *graph.DenseGraph, s *graph.SparseGraph
 	}
 	return d, s, err
 }
+
+// mLatinSquareGraph: vertices are the cells of the square, adjacent when in the same row, the same column or carrying
+// the same symbol (a strongly regular graph with few automorphisms for a generic square).
+func mLatinSquareGraph(sq [][]int) *oracle.G {
+	n := len(sq)
+	g := oracle.New(n * n)
+	for a := 0; a < n*n; a++ {
+		for b := 0; b < a; b++ {
+			if a/n == b/n || a%n == b%n || sq[a/n][a%n] == sq[b/n][b%n] {
+				g.Add(a, b)
+			}
+		}
+	}
+	return g
+}
+
+// genLatinSquare: a base square (cyclic group, the non-abelian group of order 6, or a non-group square of order 5)
+// with rows, columns and symbols permuted and a few intercalate switches.
+func genLatinSquare(t *rapid.T) [][]int {
+	var sq [][]int
+	switch rapid.IntRange(0, 2).Draw(t, "lsbase") {
+	case 0:
+		n := rapid.IntRange(3, 6).Draw(t, "lsn")
+		sq = make([][]int, n)
+		for i := range sq {
+			sq[i] = make([]int, n)
+			for j := range sq[i] {
+				sq[i][j] = (i + j) % n
+			}
+		}
+	case 1: // S3
+		sq = [][]int{{0, 1, 2, 3, 4, 5}, {1, 2, 0, 4, 5, 3}, {2, 0, 1, 5, 3, 4}, {3, 5, 4, 0, 2, 1}, {4, 3, 5, 1, 0, 2}, {5, 4, 3, 2, 1, 0}}
+	default: // a Latin square of order 5 that is not a group table
+		sq = [][]int{{0, 1, 2, 3, 4}, {1, 0, 3, 4, 2}, {2, 3, 4, 0, 1}, {3, 4, 1, 2, 0}, {4, 2, 0, 1, 3}}
+	}
+	n := len(sq)
+	rp, cp2, sp := genPerm(t, n, "lsrows"), genPerm(t, n, "lscols"), genPerm(t, n, "lssyms")
+	out := make([][]int, n)
+	for i := range out {
+		out[i] = make([]int, n)
+		for j := range out[i] {
+			out[i][j] = sp[sq[rp[i]][cp2[j]]]
+		}
+	}
+	// intercalate switches: a 2x2 subsquare a b / b a can be flipped to b a / a b
+	for k := rapid.IntRange(0, 4).Draw(t, "lsswitch"); k > 0; k-- {
+		r1, r2 := rapid.IntRange(0, n-1).Draw(t, "r1"), rapid.IntRange(0, n-1).Draw(t, "r2")
+		c1 := rapid.IntRange(0, n-1).Draw(t, "c1")
+		if r1 == r2 {
+			continue
+		}
+		for c2 := 0; c2 < n; c2++ {
+			if c2 != c1 && out[r1][c2] == out[r2][c1] && out[r2][c2] == out[r1][c1] {
+				out[r1][c1], out[r1][c2] = out[r1][c2], out[r1][c1]
+				out[r2][c1], out[r2][c2] = out[r2][c2], out[r2][c1]
+				break
+			}
+		}
+	}
+	return out
+}
+
+// genLargeSymmetric: graphs on 13..maxN vertices whose refinement has cells of 13, 20, 30+ vertices.
+func genLargeSymmetric(t *rapid.T, maxN int) *oracle.G {
+	var g *oracle.G
+	switch rapid.IntRange(0, 6).Draw(t, "lkind") {
+	case 0: // disjoint cycles of similar lengths (+ an isolated vertex)
+		g = oracle.New(0)
+		for k := rapid.IntRange(2, 4).Draw(t, "ncycles"); k > 0; k-- {
+			g = oracle.DisjointUnion(g, mCycle(rapid.IntRange(3, 12).Draw(t, "len")))
+		}
+		if rapid.Bool().Draw(t, "iso") {
+			g.AddVertex(nil)
+		}
+	case 1: // copies of one graph on 7..13 vertices, optionally plus a different piece
+		h := genGnp(t, rapid.IntRange(7, 13).Draw(t, "hn"))
+		if rapid.Bool().Draw(t, "hsym") {
+			h = genSymmetric(t, 12)
+		}
+		g = h.Copy()
+		for k := rapid.IntRange(1, 2).Draw(t, "copies"); k > 0; k-- {
+			g = oracle.DisjointUnion(g, h)
+		}
+		if rapid.Bool().Draw(t, "other") {
+			g = oracle.DisjointUnion(g, genGnp(t, rapid.IntRange(1, 6).Draw(t, "on")))
+		}
+	case 2:
+		g = mLatinSquareGraph(genLatinSquare(t))
+	case 3:
+		g = genRegular(t, rapid.IntRange(14, 30).Draw(t, "rn"))
+	case 4: // big twin classes, slightly perturbed
+		k := rapid.IntRange(2, 3).Draw(t, "parts")
+		parts := make([]int, k)
+		for i := range parts {
+			parts[i] = rapid.IntRange(5, 14).Draw(t, "part")
+		}
+		g = mCompleteMultipartite(parts)
+	case 5:
+		switch rapid.IntRange(0, 4).Draw(t, "lnamed") {
+		case 0:
+			g = mRook(rapid.IntRange(3, 5).Draw(t, "ra"), rapid.IntRange(4, 6).Draw(t, "rb"))
+		case 1:
+			g = mKneser(6, 2)
+		case 2:
+			g = mJohnson(6, 3)
+		case 3:
+			g = mHypercube(rapid.IntRange(4, 5).Draw(t, "qd"))
+		default:
+			g = mPaley(rapid.SampledFrom([]int{13, 17, 29}).Draw(t, "q"))
+		}
+	default: // a sparse random graph with many leaves and isolated vertices (large cells of low degree)
+		n := rapid.IntRange(14, 40).Draw(t, "sn")
+		g = oracle.New(n)
+		for e := rapid.IntRange(0, n).Draw(t, "se"); e > 0; e-- {
+			g.Add(rapid.IntRange(0, n-1).Draw(t, "su"), rapid.IntRange(0, n-1).Draw(t, "sv"))
+		}
+	}
+	if g.N > maxN {
+		keep := make([]int, maxN)
+		for i := range keep {
+			keep[i] = i
+		}
+		g = g.Induced(keep)
+	}
+	if rapid.IntRange(0, 3).Draw(t, "lcomp") == 0 {
+		g = g.Complement()
+	}
+	for k := rapid.SampledFrom([]int{0, 0, 1, 2}).Draw(t, "ltoggles"); k > 0 && g.N >= 2; k-- {
+		i, j := rapid.IntRange(0, g.N-1).Draw(t, "ti"), rapid.IntRange(0, g.N-1).Draw(t, "tj")
+		if i != j {
+			if g.Has(i, j) {
+				g.Del(i, j)
+			} else {
+				g.Add(i, j)
+			}
+		}
+	}
+	if g.N > 1 {
+		g = g.Induced(genPerm(t, g.N, "lrelabel"))
+	}
+	return g
+}
